@@ -193,6 +193,16 @@ func checkVal(c valCase) evid.Outcome {
 	if got := gen.Flatten(q); !got.Equal(c.Vals) {
 		return evid.Fail("%s: bytes %x decode to %v, specification layout gives %v (reserved bits set: %v)", s.Name, noisy, got, c.Vals, rfu)
 	}
+	// the decoded value encodes to the specification bytes again; both results are kept while the zero value of the
+	// type is encoded, and still read the same afterwards
+	lb2, err := q.MarshalBinary()
+	if err != nil || !bytes.Equal(lb2, wb) {
+		return evid.Fail("%s: the value decoded from %x encodes to %x (err %v), specification layout gives %x", s.Name, noisy, lb2, err, wb)
+	}
+	_, _ = gen.NewPayload[s.Name]().MarshalBinary()
+	if !bytes.Equal(lb, wb) || !bytes.Equal(lb2, wb) {
+		return evid.Fail("%s: value %v was encoded to %x; after the zero value of the type was encoded the returned slices read %x and %x (an earlier result changes under a later call)", s.Name, c.Vals, wb, lb, lb2)
+	}
 	max := false
 	for _, f := range s.Fields {
 		if _, hi := f.Range(); c.Vals[f.Name] == hi {
@@ -571,7 +581,7 @@ func TestProp(t *testing.T) {
 		}, checkRegistry)
 
 	evid.Rapid(r, t, "payload-values",
-		"rapid: boundary-biased + random in-range values of the 3-5 byte payloads (frequency 0, 100 Hz, max, random; 2.4 GHz 200 Hz steps for NewChannelReq; nibbles; channel masks; 32-bit seconds + 1/256 s fraction): library encode == model encode; model bytes with random noise in the reserved bits decode to the value. Non-trivial: reserved bit set or a field at its maximum.",
+		"rapid: boundary-biased + random in-range values of the 3-5 byte payloads (frequency 0, 100 Hz, max, random; 2.4 GHz 200 Hz steps for NewChannelReq; nibbles; channel masks; 32-bit seconds + 1/256 s fraction): library encode == model encode; model bytes with random noise in the reserved bits decode to the value; the decoded value encodes to the model bytes again, and both returned slices still read the same after the zero value of the type was encoded. Non-trivial: reserved bit set or a field at its maximum.",
 		150000, 15000000, genVal, checkVal)
 
 	evid.Rapid(r, t, "join-cflist-fhdr-bytes",
